@@ -46,8 +46,10 @@ def krylov_exp_impl(
     lanczos_vectors = [v]
     T = torch.zeros(max_krylov_dim + 2, max_krylov_dim + 2, dtype=v.dtype)
 
+    w_next = None
     for j in range(max_krylov_dim):
-        w = op(lanczos_vectors[-1])
+        w = op(lanczos_vectors[-1]) if w_next is None else w_next
+        w_next = None
 
         n = w.norm()
 
@@ -82,6 +84,17 @@ def krylov_exp_impl(
         err2 = abs(expd[j + 2, 0] * n)
 
         err = err1 if err1 < err2 else (err1 * err2 / (err1 - err2))
+
+        if err < exp_tolerance:
+            # err2 used |op(v_j)| in place of Expokit's |op(v_{j+1})|, which underestimates the
+            # error grossly when v_j is almost in the kernel of op. Confirm with the true value
+            # (the factor 3 keeps well-conditioned cases unchanged); the
+            # product is reused by the next iteration if the confirmation fails.
+            w_next = op(lanczos_vectors[-1])
+            err2 = abs(expd[j + 2, 0] * w_next.norm())
+            confirmed = err1 if err1 < err2 else (err1 * err2 / (err1 - err2))
+            if not confirmed < 3 * exp_tolerance:
+                err = confirmed
 
         if err < exp_tolerance:
             # Converged
